@@ -154,6 +154,14 @@ def run(ctx):
             continue
         judge(items, "encoder-output")
         tap(ctx, sf, x, items)
+        # the flags of the encoder do not change what it returns for an accepted input
+        for fl in ({"attribute": True}, {"strict": False}, {"strict": False, "attribute": True}):
+            rf = call_guard(lambda: sf.encoder(s, **fl), expected=(sf.EncoderError,))
+            xf = rf[1][0] if (rf[0] == "ok" and fl.get("attribute")) else (rf[1] if rf[0] == "ok" else None)
+            ctx.count("encoder_flag_variants")
+            if xf != x:
+                ctx.finding("encoder-output-not-well-formed", {"smiles": s, "selfies": repr(xf)[:300], "flags": fl},
+                            "with %r the encoder returns another string than without (%r)" % (fl, x[:120]))
     g = LiveGen(sf.get_semantic_constraints(), rng)
     for i in range(120 if quick else 4000):
         x = g.string(rng.choice([1, 2, 3]), rng.choice([5, 20, 60]))
